@@ -1,6 +1,10 @@
 package main
 
 import (
+	"github.com/foxboron/go-uefi/pkcs7"
+	encasn1 "encoding/asn1"
+	"math/big"
+	"crypto/x509/pkix"
 	"bytes"
 	"crypto"
 	"crypto/sha256"
@@ -44,7 +48,7 @@ func encSigs(sigs []*signature.WINCertificate, err error) []byte {
 
 // pureObject builds the object of a case and returns its read-only operations
 // and a snapshot function of everything an operation could move.
-func pureObject(kind string, data []byte, variant int) (ops []pureOp, snap func() []byte, err error) {
+func pureObject(kind string, data []byte, variant int) (ops []pureOp, snap func() []byte, fresh func() []pureOp, err error) {
 	cert := func(ki int) *x509.Certificate {
 		return simpleCert(rsaKey(2048, ki), fmt.Sprintf("image signer %d", ki), int64(300+ki))
 	}
@@ -52,42 +56,69 @@ func pureObject(kind string, data []byte, variant int) (ops []pureOp, snap func(
 	case "image":
 		p, err := authenticode.Parse(bytes.NewReader(data))
 		if err != nil {
-			return nil, nil, err
+			return nil, nil, nil, err
 		}
 		// variant: number of signatures appended in memory (0..2), +4: serialise and re-parse afterwards
 		for k := 0; k < variant&3; k++ {
 			if _, err := p.Sign(rsaKey(2048, k), cert(k)); err != nil {
-				return nil, nil, err
+				return nil, nil, nil, err
 			}
 		}
-		if variant&4 != 0 {
-			if p, err = authenticode.Parse(bytes.NewReader(p.Bytes())); err != nil {
-				return nil, nil, err
+		// same issuer and serial as signer 0, another key
+		twin := mintCert(rsaKey(2048, 5), pkix.Name{CommonName: "image signer 0", Organization: []string{"verif"}}, big.NewInt(300))
+		mk := func(p *authenticode.PECOFFBinary) []pureOp {
+			verify := func(c *x509.Certificate) []byte {
+				ok, err := p.Verify(c)
+				if err != nil {
+					return []byte("err:" + err.Error())
+				}
+				return []byte(fmt.Sprint(ok))
+			}
+			return []pureOp{
+				{1, func() []byte { return p.Bytes() }},
+				{2, func() []byte { b, _ := io.ReadAll(p.Open()); return b }},
+				{3, func() []byte { return p.Hash(crypto.SHA256) }},
+				{4, func() []byte { return p.Hash(crypto.SHA1) }},
+				{5, func() []byte { return encSigs(p.Signatures()) }},
+				{6, func() []byte { return verify(cert(0)) }},
+				{7, func() []byte { return verify(cert(1)) }},
+				{8, func() []byte { return verify(cert(5)) }},
+				{9, func() []byte { b, _ := p.VerifHashContent(); return b }},
+				{10, func() []byte { return verify(twin) }},
+				{11, func() []byte { return p.Hash(crypto.SHA512) }},
 			}
 		}
-		verify := func(c *x509.Certificate) []byte {
-			ok, err := p.Verify(c)
+		// a fresh object with the same content: the serialisation of a builder object, parsed anew
+		// (for an object signed in memory this is the same image by C03's re-parse theorem)
+		serial := p.Bytes()
+		if variant&4 != 0 || variant&3 == 0 {
+			// the object under test is itself a fresh parse (never touched)
+			if p, err = authenticode.Parse(bytes.NewReader(serial)); err != nil {
+				return nil, nil, nil, err
+			}
+		}
+		fresh = func() []pureOp {
+			q, err := authenticode.Parse(bytes.NewReader(serial))
 			if err != nil {
-				return []byte("err:" + err.Error())
+				return nil
 			}
-			return []byte(fmt.Sprint(ok))
+			return mk(q)
 		}
-		ops = []pureOp{
-			{1, func() []byte { return p.Bytes() }},
-			{2, func() []byte { b, _ := io.ReadAll(p.Open()); return b }},
-			{3, func() []byte { return p.Hash(crypto.SHA256) }},
-			{4, func() []byte { return p.Hash(crypto.SHA1) }},
-			{5, func() []byte { return encSigs(p.Signatures()) }},
-			{6, func() []byte { return verify(cert(0)) }},
-			{7, func() []byte { return verify(cert(1)) }},
-			{8, func() []byte { return verify(cert(5)) }},
-			{9, func() []byte { b, _ := p.VerifHashContent(); return b }},
-		}
-		return ops, func() []byte { return []byte(p.VerifState()) }, nil
+		return mk(p), func() []byte { return []byte(p.VerifState()) }, fresh, nil
 	case "db":
 		db, err := signature.ReadSignatureDatabase(bytes.NewReader(data))
 		if err != nil {
-			return nil, nil, err
+			return nil, nil, nil, err
+		}
+		fresh = func() []pureOp {
+			o, _, _, err := pureObject("db", data, -1)
+			if err != nil {
+				return nil
+			}
+			return o
+		}
+		if variant == -1 {
+			fresh = nil
 		}
 		var present, absent *signature.SignatureData
 		var ptype util.EFIGUID
@@ -125,12 +156,40 @@ func pureObject(kind string, data []byte, variant int) (ops []pureOp, snap func(
 			}
 			return b.Bytes()
 		}
-		return ops, snap, nil
+		return ops, snap, fresh, nil
+	case "p7":
+		// a parsed PKCS#7 object: verification of several certificates on the same object
+		key := rsaKey(2048, 0)
+		sc := cert(0)
+		twin := mintCert(rsaKey(2048, 5), pkix.Name{CommonName: "image signer 0", Organization: []string{"verif"}}, big.NewInt(300))
+		blob, err := pkcs7.SignPKCS7(key, sc, encasn1.ObjectIdentifier{1, 3, 6, 1, 4, 1, 311, 2, 1, 4}, data)
+		if err != nil {
+			return nil, nil, nil, err
+		}
+		mk := func() []pureOp {
+			p, err := pkcs7.ParsePKCS7(blob)
+			if err != nil {
+				return nil
+			}
+			v := func(c *x509.Certificate) []byte { ok, err := p.Verify(c); return []byte(fmt.Sprint(ok, err != nil)) }
+			return []pureOp{
+				{1, func() []byte { return v(sc) }},
+				{2, func() []byte { return v(twin) }},
+				{3, func() []byte { return v(cert(1)) }},
+				{4, func() []byte { return []byte(fmt.Sprint(p.HasCertificate(sc), p.HasCertificate(twin))) }},
+				{5, func() []byte { return append([]byte(p.OID.String()), p.ContentInfo...) }},
+			}
+		}
+		o := mk()
+		if o == nil {
+			return nil, nil, nil, fmt.Errorf("own output does not parse")
+		}
+		return o, func() []byte { return nil }, mk, nil
 	case "value":
 		key := rsaKey(2048, 0)
 		auth, m, err := signature.SignEFIVariable(efivar.Db, rawValue(data), key, cert(0))
 		if err != nil {
-			return nil, nil, err
+			return nil, nil, nil, err
 		}
 		ops = []pureOp{
 			{1, func() []byte { var b bytes.Buffer; m.Marshal(&b); return b.Bytes() }},
@@ -148,9 +207,9 @@ func pureObject(kind string, data []byte, variant int) (ops []pureOp, snap func(
 			}
 			return []byte(fmt.Sprintf("%s%v %d %x", s, auth.Time, auth.AuthInfo.Header.Length, auth.AuthInfo.CertData))
 		}
-		return ops, snap, nil
+		return ops, snap, nil, nil
 	}
-	return nil, nil, fmt.Errorf("unknown object kind")
+	return nil, nil, nil, fmt.Errorf("unknown object kind")
 }
 
 func init() {
@@ -163,15 +222,30 @@ func init() {
 		fmt.Sscan(a[4], &nseq)
 		fmt.Sscan(a[5], &g)
 		fmt.Sscan(a[6], &rounds)
-		ops, snap, err := pureObject(a[0], unhx(a[1]), variant)
+		ops, snap, fresh, err := pureObject(a[0], unhx(a[1]), variant)
 		if err != nil {
 			return []string{"setup-failed", err.Error()}
 		}
 		rng := rand.New(rand.NewSource(seed))
 		var alone, obs, snaps []string
-		pair := func(id int, r []byte) string { return fmt.Sprintf("%d:%s", id, hx(sum(r))) }
+		// the result is recorded, then the returned bytes are overwritten: they belong to the caller,
+		// and a later call must not see what the caller did with them
+		pair := func(id int, r []byte) string {
+			s := fmt.Sprintf("%d:%s", id, hx(sum(r)))
+			for i := range r {
+				r[i] = 0xAA
+			}
+			return s
+		}
 		snaps = append(snaps, hx(sum(snap())))
-		for _, o := range ops {
+		for j, o := range ops {
+			if fresh != nil {
+				// the call made alone: on an object of the same content that nothing else has touched
+				if fo := fresh(); fo != nil && j < len(fo) && fo[j].id == o.id {
+					alone = append(alone, pair(o.id, fo[j].run()))
+					continue
+				}
+			}
 			alone = append(alone, pair(o.id, o.run()))
 			snaps = append(snaps, hx(sum(snap())))
 		}
@@ -208,7 +282,7 @@ func init() {
 		return []string{"ok", strings.Join(alone, ","), strings.Join(obs, ","), strings.Join(snaps, ",")}
 	}
 	checkers["C19"] = checker{
-		rule: "objects: parsed synthetic well-formed images (unsigned, carrying a table, signed in memory 0..2 times, serialised and re-parsed) and the sbsign fixture; decoded signature databases (grammar-generated and repository fixtures); signed-update values and descriptors from SignEFIVariable. Operations: Bytes, Open+ReadAll, Hash(SHA-256/SHA-1), Signatures, Verify (signer, second signer, stranger), the hash pre-image; database Bytes, Marshal, SigDataExists/Exists/BytesExists (present and absent), list Bytes/Exists; value Marshal, Bytes, descriptor Marshal/Bytes/Verify. Per object: each operation once alone, then a random sequence on one goroutine with a state snapshot (verif hook: every stored reader's cursor, the certificate buffer's content and length, sizes; the database's lists; the value's buffer length and read offset) after every call, then 2..16 goroutines running random sequences concurrently in a -race build of the worker, snapshot after the join; R_C19 (extracted check_pure) requires every result to equal the result of the same call alone and every snapshot to equal the first; any race-detector report is a violation; non-trivial = all, distinct by (object, seed)",
+		rule: "objects: parsed synthetic well-formed images (unsigned, carrying a table, signed in memory 0..2 times, serialised and re-parsed) and the sbsign fixture; decoded signature databases (grammar-generated and repository fixtures); signed-update values and descriptors from SignEFIVariable; parsed PKCS#7 objects. Operations: Bytes, Open+ReadAll, Hash(SHA-256/SHA-1), Signatures, Verify (signer, second signer, stranger, a certificate with the signer's issuer and serial but another key), the hash pre-image; database Bytes, Marshal, SigDataExists/Exists/BytesExists (present and absent), list Bytes/Exists; value Marshal, Bytes, descriptor Marshal/Bytes/Verify. Per object: each operation once alone (on a freshly parsed object of the same content where the object can be rebuilt deterministically), every returned byte slice overwritten by the caller after it was recorded, then a random sequence on one goroutine with a state snapshot (verif hook: every stored reader's cursor, the certificate buffer's content and length, sizes; the database's lists; the value's buffer length and read offset) after every call, then 2..16 goroutines running random sequences concurrently in a -race build of the worker, snapshot after the join; R_C19 (extracted check_pure) requires every result to equal the result of the same call alone and every snapshot to equal the first; any race-detector report is a violation; non-trivial = all, distinct by (object, seed)",
 		run:  runC19,
 	}
 }
@@ -275,6 +349,9 @@ func runC19(c *Ctx) {
 		b := make([]byte, rng.Intn(200))
 		rng.Read(b)
 		objs = append(objs, obj{"value", b, 0, "value"})
+	}
+	for i := 0; i < c.N(4, 40); i++ {
+		objs = append(objs, obj{"p7", randBytes(rng, 1+rng.Intn(100)), 0, "pkcs7"})
 	}
 	nseq, rounds := c.N(24, 60), c.N(40, 1000)
 	for i, o := range objs {
